@@ -803,6 +803,39 @@ def code_after_return(body):
     return False
 
 
+def shared_node_effect(st):
+    """Is the behaviour of the real CopyPropagate on this step explained by AST node sharing?  (SubstVar inserts the
+    very same Var object at every site it rewrites; the next round's use->def map is keyed by node identity.)
+    True iff the input AST has a Var object at several positions AND the real pass, run on a copy of the same AST
+    with fresh nodes, neither raises nor produces the output observed."""
+    from fpy2.ast.visitor import DefaultTransformVisitor, DefaultVisitor
+    from fpy2.transform import CopyPropagate
+
+    class _Ids(DefaultVisitor):
+        def __init__(self):
+            self.seen, self.dup = set(), False
+
+        def _visit_var(self, e, ctx):
+            if id(e) in self.seen:
+                self.dup = True
+            self.seen.add(id(e))
+
+    class _Fresh(DefaultTransformVisitor):
+        pass
+    try:
+        ids = _Ids()
+        ids._visit_function(st['ast_in'], None)
+        if not ids.dup:
+            return False
+        fresh = _Fresh()._visit_function(st['ast_in'], None)
+        if lang.export_funcdef(fresh).coq() != st['in'].coq():
+            return False
+        out2, _ = CopyPropagate.apply_with_status(fresh)
+        return st['out'] is None or lang.export_funcdef(out2).coq() != st['out'].coq()
+    except Exception:  # noqa: BLE001 -- the de-shared run fails too: not explained by sharing
+        return False
+
+
 def coq_codes(ck, cases, chunk, tag='steps'):
     """Evaluate C07Cases.step_code on every case in Coq.  -> (list of codes or None, error)"""
     import re
@@ -1126,6 +1159,8 @@ def run(ck):
                     break
         if blame is not None:
             key = classify_step(blame['pass'], blame.get('code'), blame['in'], blame['out'], blame['exc'])
+            if key is None and blame['pass'] == 'PCopyProp' and shared_node_effect(blame):
+                key = 'copyprop_shared_node'
         if rec.get('selfcopy_loop') and not rec['mismatch']:
             key = 'copyprop_noop_reported_as_change'
         if rec['known_key'] is not None and key != rec['known_key']:
